@@ -16,6 +16,12 @@ One process: the first cases of a run (among them components that carry VARIABLE
 Dosini.options_for_backend names that are not legacy keys, e.g. the simulator's sim_* - on components of that backend and of
 another one) are read again at the very end, in reverse order, after all other cases: identical answers
 (`result-depends-on-earlier-cases`).
+Executors: workflows whose components carry EVERY subset of the executor fields the format has a key for (stage-in
+without stage-out, stage-out without stage-in, both, none, with and without the docker executor and each of its options),
+written as instance files, as package files and through experiment.model.conf (configurationForExperiment(...,
+createInstanceFiles=True) writes the instance files, configurationForExperiment(..., is_instance=True) loads them).
+If the tables cannot be extracted from the source (gen_c19.tables_safe().errors) or the Lean build fails, the model is
+absent (ctx.model -> None): implementation + oracle still run, the verdict names what no longer checks.
 Oracle (straight from the property text): for every component the resolved configuration
 (get_component_configuration(raw=False, include_default=True): all options, references, variables) is equal,
 and environments, status and output sections are equal.
@@ -1422,6 +1428,125 @@ def run_history(ctx, hist, workdir, tags=()):
     return res
 
 
+# ----------------------------------------------------------------------------------------
+# executors: every subset of the executor kinds the legacy format has a key for
+# ----------------------------------------------------------------------------------------
+
+EXECUTOR_FIELDS = [("executors", "pre", "lsf-dm-in", "payload"), ("executors", "post", "lsf-dm-out", "payload"),
+                   ("executors", "main", "docker", "docker-image"), ("executors", "main", "docker", "docker-args")]
+EXECUTOR_SHORT = {"lsf-dm-in": "stage-in", "lsf-dm-out": "stage-out", "docker-image": "docker-image", "docker-args": "docker-args"}
+
+
+def g_payload(rng):
+    return rng.choice(["all", "input/data.csv:copy", "data/a.xyz data/b.xyz", "%(gStr)s/file.txt", "out-*.csv", g_text(rng),
+                       g_word(rng), g_number_text(rng)])
+
+
+def executor_subset_tag(opts):
+    kinds = sorted(EXECUTOR_SHORT[p[3] if p[2] == "docker" else p[2]] for p, _ in opts if p[0] == "executors")
+    return "executors:" + ("+".join(kinds) if kinds else "none")
+
+
+def gen_executor_spec(rng, fields=None, mode=None, plain=False):
+    """one workflow whose components carry EVERY subset of `fields` (default: the 4 executor fields of the format: stage-in
+    without stage-out, stage-out without stage-in, both, none, with and without the docker executor and each of its
+    options): 2**len(fields) components over 2 stages, payloads of every kind, backends and a few other options at random
+    (plain: lsf components with nothing else)."""
+    fields = list(fields or EXECUTOR_FIELDS)
+    masks = list(range(2 ** len(fields)))
+    rng.shuffle(masks)
+    comps, earlier, used = [], [], set()
+    names = pick_env_names(rng)
+    for n, mask in enumerate(masks):
+        stage = 0 if n < (len(masks) + 1) // 2 else 1
+        opts = []
+        for i, f in enumerate(fields):
+            if mask >> i & 1:
+                opts.append([list(f), g_payload(rng) if f[3] == "payload" else (g_word(rng) if f[3] == "docker-image" else g_text(rng))])
+        if plain:
+            opts += [[["resourceManager", "config", "backend"], "lsf"], [["resourceManager", "lsf", "queue"], "normal"]]
+        else:
+            opts.append([["resourceManager", "config", "backend"], rng.choice(["lsf", "lsf", "local", "docker", "simulator"])])
+            others = [e for e in CATALOGUE if e[0][0] != "executors" and e[0] != ("resourceManager", "config", "backend")]
+            opts += [[list(p), g(rng)] for p, g in rng.sample(others, rng.randint(0, 3))]
+        rng.shuffle(opts)
+        name = "E%d" % mask if plain else unique_name(rng, COMP_NAME_POOL, used)
+        comps.append({"name": name, "stage": stage, "opts": opts, "refs": [] if plain else gen_refs(rng, earlier),
+                      "vars": {} if plain else gen_vars(rng, rng.randint(0, 2))})
+        earlier.append((stage, name))
+    spec = ensure_valid({"platform": "default", "mode": mode or rng.choice(["conf", "test"]), "comps": comps,
+                         "gvars": gen_vars(rng, 1), "envs": gen_envs(rng, names)})
+    use_env_names(spec, names, rng)
+    return spec
+
+
+def conf_roundtrip(spec, workdir):
+    """the same round trip through experiment.model.conf: the package files of the description (written by the real
+    Dosini.dump(is_instance=False)) are loaded by ExperimentConfigurationFactory.configurationForExperiment(...,
+    createInstanceFiles=True, updateInstanceFiles=True), which writes the instance files (DOSINIExperimentConfiguration);
+    then the instance files are loaded by configurationForExperiment(..., is_instance=True).
+    -> dict(written=..., loaded=...) of canonical observations | dict(invalid=...) | dict(written=..., error=...)"""
+    F, D = _imports()
+    import experiment.model.conf as C
+    root = tempfile.mkdtemp(prefix="conf-", dir=workdir)
+    try:
+        try:
+            inst = make_instance(spec)
+            os.makedirs(os.path.join(root, "conf"))
+            D.Dosini().dump(copy.deepcopy(inst), os.path.join(root, "conf"), update_existing=True, is_instance=False)
+            first = C.ExperimentConfigurationFactory.configurationForExperiment(
+                root, createInstanceFiles=True, updateInstanceFiles=True, primitive=True, validate=False)
+            c1 = first.get_flowir_concrete(return_copy=True)
+            written = observe_written(c1.instance(ignore_errors=True, inject_missing_fields=False, fill_in_all=False,
+                                                  is_primitive=True), {})
+            written.pop("inst", None)
+        except Exception as exc:    # the package itself could not be set up / loaded: not a test of the round trip
+            return {"invalid": "%s: %s" % (type(exc).__name__, str(exc)[:300])}
+        res = {"written": written}
+        try:
+            chosen = {}
+            second = C.ExperimentConfigurationFactory.configurationForExperiment(
+                root, is_instance=True, createInstanceFiles=False, primitive=True, validate=False, out_chosen_format=chosen)
+            if chosen.get("format") != "dosini" or chosen.get("is-instance") is not True:
+                res.update({"error": "conf:instance-files-not-found-after-they-were-written", "message": repr(chosen)[:300]})
+                return res
+            c2 = second.get_flowir_concrete(return_copy=True)
+            loaded = observe_written(c2.instance(ignore_errors=True, inject_missing_fields=False, fill_in_all=False,
+                                                 is_primitive=True), {})
+            loaded.pop("inst", None)
+            loaded["load_errors"] = []
+            res["loaded"] = loaded
+        except Exception as exc:
+            res.update({"error": "conf:reload-raises:" + type(exc).__name__, "message": str(exc)[:300]})
+        return res
+    finally:
+        shutil.rmtree(root, ignore_errors=True)
+
+
+def run_conf_case(ctx, spec, workdir, tags=()):
+    case = {"via": "conf", "spec": spec}
+    res = conf_roundtrip(spec, workdir)
+    t = list(tags) + ["via:experiment.model.conf"] + sorted({executor_subset_tag(c["opts"]) for c in spec["comps"]})
+    if "invalid" in res:
+        ctx.case(case, nontrivial=False, tags=t + ["invalid-generated-description"])
+        ctx.extra.setdefault("invalid_examples", [])
+        if len(ctx.extra["invalid_examples"]) < 3:
+            ctx.extra["invalid_examples"].append("conf: " + res["invalid"])
+        return res
+    if "error" in res:
+        fails = [(res["error"], {"message": res.get("message")})]
+    else:
+        fails, seen = [], set()
+        for slug, detail in _oracle_one(res["written"], res["loaded"], "instance files written by experiment.model.conf"):
+            if slug not in seen:
+                seen.add(slug)
+                fails.append((slug, detail))
+    ctx.case(case, nontrivial="error" not in res, tags=sorted(set(t + ["oracle:" + ("fail" if fails else "ok")])))
+    for slug, detail in fails:
+        ctx.fail(slug, case, detail)
+    return res
+
+
 CORPUS = [
     # (1) max-restarts is written but parsed under the name maxRestarts (fix: fixes/C19-max-restarts-key.diff)
     {"platform": "default", "mode": "conf", "comps": [
@@ -1451,6 +1576,7 @@ def run_case(ctx, spec, workdir, tags=()):
     inst = res["written"].pop("inst")
     t = ["platform:" + spec.get("platform", "default"), "mode:" + spec.get("mode", "conf")] + list(tags)
     for c in spec["comps"]:
+        t.append(executor_subset_tag(c["opts"]))
         for p, v in c["opts"]:
             t.append("opt:" + ".".join(p))
             if isinstance(v, str) and v.startswith("%(") and tuple(p) in CAT_PATHS and p[0] != "command" or \
@@ -1513,7 +1639,17 @@ def first_difference(a, b, path=""):
     return {"where": path, "first_reading": a, "second_reading": b}
 
 
-def make_shrinker(workdir):
+def make_shrinker(workdir0):
+    # finish() calls the shrinker after run() has removed its scratch directory: the shrinker makes its own
+    state = {"dir": workdir0}
+
+    class _Dir(object):
+        def __fspath__(self):
+            if not os.path.isdir(state["dir"]):
+                state["dir"] = tempfile.mkdtemp(prefix="c19-shrink-")
+            return state["dir"]
+    workdir = _Dir()
+
     def fails_with(what, spec):
         res = roundtrip(spec, workdir)
         if "invalid" in res:
@@ -1521,7 +1657,34 @@ def make_shrinker(workdir):
         res["written"].pop("inst", None)
         return any(slug == what for slug, _ in oracle(res))
 
+    def conf_fails_with(what, spec):
+        res = conf_roundtrip(spec, workdir)
+        if "invalid" in res:
+            return False
+        if "error" in res:
+            return res["error"] == what
+        return any(slug == what for slug, _ in _oracle_one(res["written"], res["loaded"], "conf"))
+
     def shrink(what, spec):
+        logging.disable(logging.CRITICAL)
+        try:
+            return shrink_(what, spec)
+        finally:
+            logging.disable(logging.NOTSET)
+            if state["dir"] != workdir0:
+                shutil.rmtree(state["dir"], ignore_errors=True)
+
+    def shrink_(what, spec):
+        if spec.get("via") == "conf" and "spec" in spec:
+            inner = copy.deepcopy(spec["spec"])
+            inner["comps"] = shrink_list(inner["comps"], lambda cs: bool(cs) and conf_fails_with(what, dict(inner, comps=cs)), 40)
+            for i, c in enumerate(list(inner["comps"])):
+                def with_opts(opts, i=i, c=c):
+                    cs = list(inner["comps"])
+                    cs[i] = dict(c, opts=opts)
+                    return dict(inner, comps=cs)
+                inner["comps"][i] = dict(c, opts=shrink_list(c["opts"], lambda o: conf_fails_with(what, with_opts(o)), 30))
+            return {"via": "conf", "spec": inner} if conf_fails_with(what, inner) else None
         if "comps" not in spec:
             return None
         spec = copy.deepcopy(spec)
@@ -1558,7 +1721,7 @@ def make_shrinker(workdir):
 
 def run(ctx):
     logging.disable(logging.CRITICAL)
-    t = gen_c19.tables()
+    t = gen_c19.tables_safe()
     ctx.rule = ("case = one generated workflow (1-3 stages, 1-9 components; options drawn type-directed from the 47-entry "
                 "catalogue of every FlowIR component option that has a legacy key, for backends local/lsf/kubernetes/docker/"
                 "simulator; global/stage/platform/component variables; default/stage/platform blueprints; environments; "
@@ -1586,6 +1749,11 @@ def run(ctx):
                 "writes status.conf/output.conf itself) and loaded with load_from_directory(is_instance=False). "
                 "Component variables named like options of a backend that are not legacy keys (generated table: "
                 "options_for_backend minus known keys) are drawn for 75%% of the simulator components and 12%% of the others. "
+                "Executors: 2 (12 thorough) workflows of 16 components carrying every subset of the 4 executor fields of the "
+                "format (lsf-dm-in payload, lsf-dm-out payload, docker image, docker arguments; payloads 'all', paths, "
+                "variable references, free text) with random backends and other options, written as instance and package "
+                "files, + 4 (21 thorough) such workflows (4 or 16 components) taken through experiment.model.conf: package "
+                "files -> configurationForExperiment(createInstanceFiles=True) -> configurationForExperiment(is_instance=True). "
                 "Histories: 25 (250 thorough) sequences of 2-3 descriptions written into one configuration directory "
                 "(instance files / package files / alternating; the next description = the previous one without its last "
                 "stages, another shorter workflow, or a longer one), the flavour written last is loaded and compared with "
@@ -1625,8 +1793,17 @@ def run(ctx):
     # the catalogue must cover the dump table exactly (every option of every backend that has a legacy key)
     dump_paths = {tuple(p) for p, _, _ in t["dump"]} | {tuple(pp) + (k,) for pp in t["passthrough"] for k in ("docker-image", "docker-args")}
     cat = set(CAT_PATHS) | {("references",), ("command", "interpreter")}
-    ctx.compare("generator catalogue == paths of the generated dump table", {"check": "catalogue"},
-                sorted(map(list, dump_paths)), sorted(map(list, cat)))
+    if t["errors"]:
+        # the tables could not be read off the source: the generated Lean file is a build error (pin theorems and model
+        # no longer check; reported by finish() unless the search below finds a concrete failing input)
+        ctx.compare("translation tables of the legacy front-end can be extracted from the source", {"check": "extraction"},
+                    [], t["errors"])
+        ctx.extra["table_extraction_errors"] = t["errors"]
+    else:
+        ctx.compare("generator catalogue == paths of the generated dump table", {"check": "catalogue"},
+                    sorted(map(list, dump_paths)), sorted(map(list, cat)))
+        unknown = sorted(".".join(p) + " -> " + k for p, k, pr in t["dump"] if pr == "unknown")
+        ctx.compare("every writer of the dump table is a recognised per-option printer", {"check": "printers"}, [], unknown)
     rng = ctx.rng
     quick = ctx.tier == "quick"
     workdir = tempfile.mkdtemp(prefix="c19-")
@@ -1642,6 +1819,17 @@ def run(ctx):
         for spec in early_specs(rng, 6 if quick else 24):
             res = run_case(ctx, spec, workdir, tags=["read-first-and-again-last"])
             early.append((spec, canon_result(res)))
+        # executors: every subset of the executor kinds of the format on the components of one workflow (instance files,
+        # package files, and through experiment.model.conf)
+        for k in range(2 if quick else 12):
+            spec = gen_executor_spec(rng, mode=["conf", "test"][k % 2])
+            res = run_case(ctx, spec, workdir, tags=["executor-subsets"])
+            if k == 0:
+                early.append((spec, canon_result(res)))
+        run_conf_case(ctx, gen_executor_spec(rng, fields=EXECUTOR_FIELDS[:2], plain=True), workdir, tags=["executor-subsets"])
+        for k in range(3 if quick else 20):
+            run_conf_case(ctx, gen_executor_spec(rng, fields=EXECUTOR_FIELDS if k % 2 else EXECUTOR_FIELDS[:2]), workdir,
+                          tags=["executor-subsets"])
         probe_parse_side(ctx, t)
         probe_names(ctx, workdir)
         probe_numbers(ctx, workdir)
@@ -1695,7 +1883,11 @@ def replay(ctx, doc):
                 case = b["input"]
     workdir = tempfile.mkdtemp(prefix="c19-")
     try:
-        BACKEND_ONLY_NAMES[:] = gen_c19.tables()["backend_only"]
+        BACKEND_ONLY_NAMES[:] = gen_c19.tables_safe()["backend_only"]
+        ctx.shrinker = make_shrinker(workdir)
+        if isinstance(case, dict) and case.get("via") == "conf" and "spec" in case:
+            run_conf_case(ctx, case["spec"], workdir, tags=["replay"])
+            return
         if isinstance(case, dict) and "spec" in case:
             case = case["spec"]
         if isinstance(case, dict) and "specs" in case and "files" in case:
@@ -1708,7 +1900,7 @@ def replay(ctx, doc):
         elif isinstance(case, dict) and "comps" in case:
             run_case(ctx, case, workdir, tags=["replay"])
         elif isinstance(case, dict) and "key" in case:
-            probe_parse_side(ctx, gen_c19.tables())
+            probe_parse_side(ctx, gen_c19.tables_safe())
         else:
             run(ctx)
     finally:
